@@ -879,14 +879,14 @@ func TestVerifC07File(t *testing.T) {
 	thorough := kit.Thorough()
 	maxLen, maxSegs := 4, 2
 	if thorough {
-		maxLen, maxSegs = 5, 3
+		maxLen, maxSegs = 6, 3
 	}
 	item := 0
 	// Part A: one field column, every sequence over (alphabet + null) up to maxLen rows, statistics coded both ways
 	for typ := 0; typ < gen.NTypes; typ++ {
 		ml := maxLen
 		if typ == gen.TBool {
-			ml = maxLen + 5 // 9..10 rows: crosses the 8-row segment limit with every null bitmap
+			ml = 9 + maxLen/6 // 9 (10) rows: crosses the 8-row segment limit with every null bitmap
 		}
 		for l := 1; l <= ml; l++ {
 			kit.Sequences(c07AlphaSize(typ), l, func(seq []int) bool {
